@@ -409,6 +409,11 @@ def stack(arrays, axis=None, keys=None, align=False, **kwargs):
     # find common axes
     try: 
         axes = _get_axes(*arrays)
+        # _get_axes tolerates singleton axes (broadcasting): here all inputs must carry the same labels
+        for a in arrays:
+            for ax in a.axes:
+                if not np.all(ax.values == axes[ax.name].values):
+                    raise ValueError("axes are not aligned")
     except ValueError as msg: 
         if 'axes are not aligned' in repr(msg):
             msg = 'axes are not aligned\n ==> Try passing `align=True`' 
